@@ -158,6 +158,15 @@ def main(tier):
             v.violation(dict(check="stream-trace", module="TraceStream", stack=b["stack"], kind=b["what"], L=b["L"], te=False,
                              op=b["got"].get("whence", "read")), dict(engine="layers-trace", profile="prod", trace=t, line=b["line"], event=b["got"]))
     ev["prod_events"] = nev
+    # POSITIONS beyond 2^32 (a zero-filled 4.3 GB file is an 18 kB compressed stream): seeks from the start, the end and
+    # the current position across 2^32, small reads after each; evaluated in the engine (TLC's integers are 32-bit)
+    hp = os.path.join(wd, "hugepos.json")
+    mbt("prod", "hugepos", hp, timeout=1800)
+    hres = json.load(open(hp))
+    for viol in hres["violations"]:
+        v.violation(dict(check="huge-positions", module="ByteStream", stack=viol["stack"], kind=viol["kind"], L=-1, te=False, op="seek"),
+                    dict(engine="hugepos", profile="prod", detail=viol))
+    ev["hugepos_ops"] = hres["ops"]
     ev["prod_runs"] = len(jobs)
     # COUNTS of units rather than sizes: many chunks, many compressed blocks (scaled constants make them cheap): an
     # index table with a stride, a counter of 8 or 16 bits, a per-block cost... change behaviour at a count, not at a size
@@ -216,7 +225,7 @@ def main(tier):
         ev["apalache"] = dict(proved=False, note=f"not concluded: {e}")
     shutil.rmtree(ad, ignore_errors=True)
     cov = dict(states=ev["states"], transitions=ev["transitions"], apalache_lemma=ev.get("apalache"),
-               traces_validated_against_impl=ev["runs"] + ev.get("prod_runs", 0) + ev.get("many_units_runs", 0), many_units_events=ev.get("many_units_events", 0), production_constant_events=ev.get("prod_events", 0), samples=ev["samples"][:3] or ["none"],
+               traces_validated_against_impl=ev["runs"] + ev.get("prod_runs", 0) + ev.get("many_units_runs", 0), many_units_events=ev.get("many_units_events", 0), production_constant_events=ev.get("prod_events", 0), positions_beyond_2_32_ops=ev.get("hugepos_ops", 0), samples=ev["samples"][:3] or ["none"],
                edges_exported=ev["edges"], steps_replayed=ev["steps"], hidden_state_steps_compared=ev["hidden"],
                short_reads_refined=ev.get("short_reads_refined", 0), drift=ev["drifts"], drift_samples=ev["drift_samples"][:3], tlc_runs=ev["tlc"], constants=ev["constants"],
                exhaustive=(ev["drifts"] == 0 and not v.violations),
